@@ -20,7 +20,7 @@ use crate::sched::{OrderSpec, SchedSpec};
 /// tables the input asks for" cannot excuse anything.
 const LARGE_TABLE: isize = 10_000;
 
-const FAULT_KINDS: [&str; 28] = [
+const FAULT_KINDS: [&str; 29] = [
     "truncate",
     "bit_flip",
     "significant_byte",
@@ -47,8 +47,18 @@ const FAULT_KINDS: [&str; 28] = [
     "env_out_dir_is_file",
     "env_output_path_is_dir",
     "env_input_path_spelling",
+    "env_hostile_module_name",
     "api_history",
     "api_odd_pointer_size",
+];
+
+/// File and directory names are module path segments, and nothing validates them before the
+/// backend turns them into Rust paths: digits first, non-ASCII letters and digits, keywords,
+/// raw identifiers, punctuation, dots only, blanks.
+pub const HOSTILE_SEGMENTS: [&str; 36] = [
+    "3d", "2024", "0", "007x", "m\u{b2}", "\u{e9}t\u{e9}", "\u{661}\u{662}", "\u{2167}", "x\u{301}", "_", "__", "r#type", "r#x",
+    "type", "self", "Self", "crate", "super", "mod", "fn", "u32", "void", "a-b", "a.b", "a b",
+    " ", "-", "..", "...", "a..b", "x;", "a::b", "'a", "\u{200b}x", "x\ny", "$",
 ];
 
 fn boundary_values(rng: &mut Rng, current: Option<u128>) -> String {
@@ -1223,6 +1233,35 @@ pub fn generate(seed: u64, tier: Tier) -> Case {
                 world.in_arg_suffix =
                     (*rng.pick(&["/", "/.", "//", "/../in", "/./"])).to_string();
                 true
+            }
+            "env_hostile_module_name" => {
+                if files.is_empty() {
+                    false
+                } else {
+                    let i = rng.below(files.len());
+                    let seg = *rng.pick(&HOSTILE_SEGMENTS);
+                    let old = files[i].0.trim_end_matches(".pyxis").to_string();
+                    let mut segs: Vec<String> = old.split('/').map(|s| s.to_string()).collect();
+                    let dir_ok = !seg.chars().all(|c| c == '.');
+                    match rng.below(3) {
+                        // the file itself
+                        0 => *segs.last_mut().unwrap() = seg.to_string(),
+                        // one of its directories (or a new one above it)
+                        1 if dir_ok && segs.len() >= 2 => {
+                            let k = rng.below(segs.len() - 1);
+                            segs[k] = seg.to_string();
+                        }
+                        1 if dir_ok => segs.insert(0, seg.to_string()),
+                        _ => *segs.last_mut().unwrap() = seg.to_string(),
+                    }
+                    let new = format!("{}.pyxis", segs.join("/"));
+                    if files.iter().any(|(p, _)| *p == new) {
+                        false
+                    } else {
+                        files[i].0 = new;
+                        true
+                    }
+                }
             }
             "api_history" => {
                 let n = files.len();
